@@ -2,7 +2,9 @@ package cli
 
 import (
 	"fmt"
+	"os"
 	"strings"
+	"time"
 
 	"github.com/FollowTheProcess/spok/parser"
 	"pgregory.net/rapid"
@@ -45,7 +47,28 @@ func genErrBody(t *rapid.T) ErrCase {
 // execErrBinary: whatever the parser reports for the text, the CLI reports for the file —
 // in particular the same line number and the same quoted line.
 func execErrBinary(s *ev.Shard, b *sandbox.Box, c ErrCase) *rp.Fail {
-	_, perr := parser.New(c.Src).Parse()
+	// the reference parse runs in this process: bounded, so that a parser that never returns is
+	// reported for this case (and does not hold the shard until its deadline)
+	if s != nil {
+		s.Progress(0, []byte(c.Src))
+		s.Tick()
+	}
+	var perr error
+	done := make(chan struct{})
+	go func() {
+		defer close(done)
+		defer func() { _ = recover() }() // a panicking parser is C08's in-process subject
+		_, perr = parser.New(c.Src).Parse()
+	}()
+	select {
+	case <-done:
+	case <-time.After(20 * time.Second):
+		if s != nil {
+			fmt.Fprintln(os.Stderr, "WATCHDOG: parsing the case in flight made no progress for 20s")
+			os.Exit(3)
+		}
+		return &rp.Fail{Sig: "process-stalled", Size: len(c.Src), Msg: fmt.Sprintf("spokfile %q: parsing does not terminate", c.Src)}
+	}
 	if perr == nil {
 		if s != nil {
 			s.Class("binary_input_parses")
